@@ -409,7 +409,7 @@ def binop(sx, op, a, b, st, node):
     m = sx.reg.binop(sx, op, a, b, st, node)
     if m is not None:
         return m
-    if not sx.spec_mode and all(isinstance(t, (V._Str, V._Bytes, V._Int, V._Real, V._Bool, V.Tuple, V.Opaque)) for t in (ta, tb)):
+    if not sx.spec_mode and all(t is None or isinstance(t, (V._Str, V._Bytes, V._Int, V._Real, V._Bool, V._None, V.Tuple, V.Opaque)) for t in (ta, tb)):
         # an operator combination on immutable values that is not modelled: a value without contract (or TypeError)
         from .sx import Unknown as _Unknown
         sx.uncontracted.append("operator %s on %r, %r (line %s)" % (type(op).__name__, ta, tb, getattr(node, "lineno", "?")))
@@ -559,6 +559,8 @@ def slice_(sx, c, lo, hi, step, st, node):
         def clamp(v, dflt):
             if v is None or isinstance(v.ty, V._None):
                 return dflt
+            if isinstance(v.ty, V.Opaque):
+                v = sx.coerce(v, V.Int, st)      # a bound without contract: some integer
             x = sx.num(v)
             x = z3.If(x < 0, x + n, x)
             return z3.If(x < 0, 0, z3.If(x > n, n, x))
